@@ -64,6 +64,8 @@ def call_taint(t: Taint, e: ast.Call):
 		out = set()
 		for a in e.args:
 			out |= t.of(a)
+		if name.split('.')[-1] in ('elements', 'expanded', 'expand_elements'):
+			return {l if l.endswith('[]') else l + '[]' for l in out}
 		return out
 	if name.endswith('.query_raw'):
 		return {'ident'}
